@@ -38,13 +38,14 @@ EXTENDS Numeric
 \* Part 1 -- Lagrange differentiation operator
 \* ===========================================================================
 \* coefficients c[1..r+1] (c[k] = coefficient of x^(k-1)) of  prod_k (x + S[k])
-MulLin(c, s) == [k \in 1..(Len(c) + 1) |-> (IF k > 1 THEN c[k - 1] ELSE 0) + (IF k <= Len(c) THEN s * c[k] ELSE 0)]
+\* (TLCEval: function constructors are lazy in TLC; without it every level is re-evaluated on every access)
+MulLin(c, s) == TLCEval([k \in 1..(Len(c) + 1) |-> (IF k > 1 THEN c[k - 1] ELSE 0) + (IF k <= Len(c) THEN s * c[k] ELSE 0)])
 RECURSIVE PolyRun(_, _, _)
 PolyRun(c, S, k) == IF k > Len(S) THEN c ELSE PolyRun(MulLin(c, S[k]), S, k + 1)
 PolyOfShifts(S) == PolyRun(<<1>>, S, 1)
 
 \* the nodes other than j, negated:  prod_(k # j) (x - o_k) = PolyOfShifts(OtherShifts(o, j))
-OtherShifts(o, j) == [k \in 1..(Len(o) - 1) |-> -o[IF k < j THEN k ELSE k + 1]]
+OtherShifts(o, j) == TLCEval([k \in 1..(Len(o) - 1) |-> -o[IF k < j THEN k ELSE k + 1]])
 NodeDenom(o, j) == LET RECURSIVE P(_) P(k) == IF k > Len(o) THEN 1 ELSE (IF k = j THEN 1 ELSE o[j] - o[k]) * P(k + 1) IN P(1)
 \* m-th derivative at 0 of the j-th Lagrange polynomial of the nodes o  (a reduced rational)
 DiffWeight(o, m, j) ==
@@ -55,14 +56,14 @@ Lcm(a, b) == (a \div Gcd(a, b)) * b
 LcmDens(w) == LET RECURSIVE L(_) L(k) == IF k > Len(w) THEN 1 ELSE Lcm(w[k][2], L(k + 1)) IN L(1)
 \* the weights over their common denominator:  w_j = num[j] / den
 Stencil(o, m) ==
-  LET w   == [j \in DOMAIN o |-> DiffWeight(o, m, j)]
+  LET w   == TLCEval([j \in DOMAIN o |-> DiffWeight(o, m, j)])
       den == LcmDens(w)
-      num == [j \in DOMAIN o |-> w[j][1] * (den \div w[j][2])]
+      num == TLCEval([j \in DOMAIN o |-> w[j][1] * (den \div w[j][2])])
   IN [num |-> TLCEval(num), den |-> den, sumabs |-> SumSeq([j \in DOMAIN o |-> Abs(num[j])]),
       maxabs |-> MaxSet({Abs(num[j]) : j \in DOMAIN o})]
 
 \* contiguous windows a, a+1, .., a+n-1 that contain the evaluation point 0
-Window(a, n) == [j \in 1..n |-> a + j - 1]
+Window(a, n) == TLCEval([j \in 1..n |-> a + j - 1])
 NMaxNodes == 10
 MaxOrder  == 2
 StencilTab == TLCEval([m \in 1..MaxOrder |-> TLCEval([n \in 2..NMaxNodes |->
@@ -87,10 +88,11 @@ StencilSafe(st, v, H, m) ==
   /\ ((MaxMagSeq(v) * st.sumabs) \div st.den + 2) * (H ^ m) < 268435456
 
 \* --- tolerances (named; bits of 2^-k, multiplied by the integer magnitude of the compared numbers) ----------
-TolDerivBits == 36      \* stencil vs delivered derivative: 2^-36 * StencilMag
-TolMapBits   == 40      \* transformation rule: 2^-40 * product of the magnitudes of the factors
-TolDualBits  == 40      \* duality of reference-mapped elements, partition of unity
-TolGlobBits  == 24      \* duality of ElementGlobal (inverse Vandermonde matrix)
+TolDerivBits == 40      \* stencil vs delivered derivative: 2^-40 * StencilMag
+TolGlobDerivBits == 32  \* the same for ElementGlobal (coefficients from an inverted Vandermonde matrix)
+TolMapBits   == 44      \* transformation rule: 2^-44 * product of the magnitudes of the factors
+TolDualBits  == 44      \* duality of reference-mapped elements, partition of unity
+TolGlobBits  == 30      \* duality of ElementGlobal (inverse Vandermonde matrix)
 TolOf(bits, K) == TolScaled(FxTol(bits), Max2(K, 1))
 FxNearK(a, b, bits, K) == FxNear(a, b, TolOf(bits, K))
 
@@ -107,10 +109,13 @@ FxNearK(a, b, bits, K) == FxNear(a, b, TolOf(bits, K))
 \* pou   1 iff the value functions are claimed to sum to one (Lagrange-type bases)
 \* dual  "nodal" (phi_i(dofloc_j) = delta_ij for the DOFs that have a location), "flux", "circ" (lowest order
 \*       H(div) / H(curl)), "global" (named DOFs + gdof), "none"
+\* geo   "rect": the class is unisolvent / meant for axis-parallel rectangles and boxes only (tensor-product power basis
+\*       in global coordinates); it is driven on such cells only
 \* nn/nd normalisation constant of the flux / circulation functional of the class (a representation choice of the
 \*       source: ElementTetRT1 has div = 3 on the reference cell, i.e. flux 1/2 through every face)
 R(cls, kind, fam, dd, td, pou, dual) ==
-  [cls |-> cls, p |-> 0, kind |-> kind, fam |-> fam, dd |-> dd, td |-> td, pou |-> pou, dual |-> dual, nn |-> 1, nd |-> 1]
+  [cls |-> cls, p |-> 0, kind |-> kind, fam |-> fam, dd |-> dd, td |-> td, pou |-> pou, dual |-> dual, nn |-> 1, nd |-> 1,
+   geo |-> IF cls \in {"ElementQuadBFS", "ElementQuad2G", "ElementHexC1"} THEN "rect" ELSE "any"]
 BaseRows == <<
   \* ---- segment
   R("ElementLineP0", "line", "H1", 0, 0, 1, "nodal"),
@@ -217,7 +222,7 @@ WrapperSpecs == <<
 
 RowOf(cls, p) == LET S == {r \in DOMAIN ElementRows : ElementRows[r].cls = cls /\ ElementRows[r].p = p}
                  IN IF S = {} THEN [cls |-> "", p |-> 0, kind |-> "", fam |-> "", dd |-> 0, td |-> 0, pou |-> 0,
-                                    dual |-> "none", nn |-> 1, nd |-> 1]
+                                    dual |-> "none", nn |-> 1, nd |-> 1, geo |-> "any"]
                     ELSE ElementRows[CHOOSE r \in S : TRUE]
 RowTab == TLCEval([r \in DOMAIN ElementRows |-> <<ElementRows[r].cls, ElementRows[r].p>>])
 Known(cls, p) == \E r \in DOMAIN RowTab : RowTab[r] = <<cls, p>>
@@ -268,6 +273,13 @@ KindDim(kind) == CellDim(kind)
 NVertsOf(kind) == CASE kind = "line" -> 2 [] kind = "tri" -> 3 [] kind = "quad" -> 4 [] kind = "tet" -> 4
                     [] kind = "hex" -> 8 [] kind = "wedge" -> 6
 \* affine cells: simplices always; quadrilaterals = parallelograms; hexahedra = parallelepipeds; prisms = affine prisms
+\* axis-parallel rectangle / box: every edge of the reference cell is mapped to an axis direction
+IsAxisBox(kind, vs) ==
+  LET ax(u) == Cardinality({c \in DOMAIN u : u[c] # 0}) = 1 IN
+  CASE kind = "quad" -> ax(VSub(vs[2], vs[1])) /\ ax(VSub(vs[4], vs[1]))
+    [] kind = "hex"  -> ax(VSub(vs[5], vs[8])) /\ ax(VSub(vs[6], vs[8])) /\ ax(VSub(vs[7], vs[8]))
+    [] OTHER -> TRUE
+SpecRect(s) == LET L == SpecLeaves(s) IN \E k \in DOMAIN L : L[k].geo = "rect"
 IsAffineCell(kind, vs) ==
   CASE kind \in {"line", "tri", "tet"} -> SimplexDet(vs) # 0
     [] kind = "quad" -> vs[3] = VAdd(vs[2], VSub(vs[4], vs[1])) /\ SimplexDet(<<vs[1], vs[2], vs[4]>>) # 0
@@ -302,7 +314,9 @@ DerivHarnessWF(e) ==
   \* (ElementGlobal functions are polynomials in the global coordinates on every cell)
   /\ (e.mode = "map" => e.affine = 1)
   /\ (e.affine = 1 => /\ Len(e.verts) = NVertsOf(e.kind) /\ \A v \in DOMAIN e.verts : Len(e.verts[v]) = e.dim
-                      /\ IsAffineCell(e.kind, e.verts))
+                      /\ IsAffineCell(e.kind, e.verts)
+                      /\ (SpecRect(e.spec) => IsAxisBox(e.kind, e.verts)))
+  /\ (e.mode = "glob" => e.affine = 1)
   /\ \A q \in DOMAIN e.pts :
        LET pt == e.pts[q] IN
        /\ Len(pt.win) = e.dim /\ Len(pt.lines) = e.nc
@@ -348,7 +362,7 @@ DerivHolds(e) ==
   LET op == DerivOpOf(e) IN
   \A q \in DOMAIN e.pts :
      LET pt == e.pts[q] ex == DerivExpected(pt, op, e.dim, e.nc) IN
-     \A g \in DOMAIN ex : FxNearK(pt.got[ex[g].idx], ex[g].v, TolDerivBits, ex[g].k)
+     \A g \in DOMAIN ex : FxNearK(pt.got[ex[g].idx], ex[g].v, IF e.mode = "glob" THEN TolGlobDerivBits ELSE TolDerivBits, ex[g].k)
 DerivClauseName(e) == CASE e.mode = "ref" -> "ReferenceDerivative" [] e.mode = "map" -> "MappedDerivative"
                         [] OTHER -> "GlobalDerivative"
 
@@ -374,6 +388,7 @@ MapShape(fam, dim) ==      \* lengths of L.v, L.d, G.v, G.d
     [] fam = "Hcurl" -> <<dim, IF dim = 2 THEN 1 ELSE 3, dim, IF dim = 2 THEN 1 ELSE 3>>
     [] fam = "Matrix" -> <<dim * dim, 0, dim * dim, 0>>
     [] OTHER -> <<0, 0, 0, 0>>
+MapFieldName(fam) == CASE fam \in {"H1", "Skeleton"} -> "grad" [] fam = "Hdiv" -> "div" [] fam = "Hcurl" -> "curl" [] OTHER -> ""
 MapHarnessWF(e) ==
   /\ SpecWF(e.spec) /\ IsLeaf(e.spec) /\ LeafRow(e.spec).fam \in {"H1", "Hdiv", "Hcurl", "Matrix", "Skeleton"}
   /\ e.kind = SpecKind(e.spec) /\ e.dim = KindDim(e.kind)
@@ -385,6 +400,7 @@ MapWF(e) ==
   /\ Len(e.L) = Len(e.G) /\ Len(e.L) >= 1
   /\ \A i \in DOMAIN e.L :
        /\ Len(e.L[i].v) = sh[1] /\ Len(e.L[i].d) = sh[2] /\ Len(e.G[i].v) = sh[3] /\ Len(e.G[i].d) = sh[4]
+       /\ e.G[i].dn = MapFieldName(LeafRow(e.spec).fam)          \* the derivative is delivered under the family's field name
        /\ AllFxSeq(e.L[i].v) /\ AllFxSeq(e.L[i].d) /\ AllFxSeq(e.G[i].v) /\ AllFxSeq(e.G[i].d)
        /\ ModerateSeq(e.L[i].v) /\ ModerateSeq(e.L[i].d) /\ ModerateSeq(e.G[i].v) /\ ModerateSeq(e.G[i].d)
 MapRuleAt(e, fam, i) ==
@@ -479,8 +495,9 @@ WrapHolds(e) == IF e.wrap = "Vector" THEN VectorInherits(e) ELSE CompositeInheri
 \*           S[f][q][i] = value vector of function i at sample point q of facet f (gbasis)
 \*  "circ"   the same with ents = local edges
 \*  "named"  global elements: lay = <<nodal, edge, facet, interior dofs per entity>>, cnt = <<nnodes, nedges, nfacets>>,
-\*           names = element.dofnames, verts, ents = local facets, F[j][i] = all delivered fields of function i at the
-\*           image of dofloc j (value, grad, hess, .. concatenated row-major), ord = number of derivative orders
+\*           names = element.dofnames, verts, ents = local facets, F[pt[j]][i] = all delivered fields of function i at
+\*           the image of dofloc j (value, grad, hess, .. concatenated row-major; pt[j] = index of the distinct
+\*           location), ord = number of derivative orders delivered
 \*  "gdof"   M[j][i] = the element's own functional gdof(., ., j) applied to the delivered fields of function i
 DualRow(e) == LeafRow(e.spec)
 NodalHolds(e) ==
@@ -553,10 +570,10 @@ NamedWF(e) ==
        /\ NameOrder(at.nm) \in 0..(e.ord - 1)
        /\ (at.nm = "u_n" => at.ent = "f" /\ e.dim = 2 /\ at.k \in DOMAIN e.ents)
 NamedResultWF(e) ==
-  /\ Len(e.F) = e.N
-  /\ \A j \in 1..e.N : /\ Len(e.F[j]) = e.N
-                       /\ \A i \in 1..e.N : /\ Len(e.F[j][i]) = BlockOffset(e.ord, e.dim)
-                                            /\ AllFxSeq(e.F[j][i]) /\ ModerateSeq(e.F[j][i])
+  /\ Len(e.pt) = e.N /\ \A j \in 1..e.N : e.pt[j] \in DOMAIN e.F
+  /\ \A u \in DOMAIN e.F : /\ Len(e.F[u]) = e.N
+                           /\ \A i \in 1..e.N : /\ Len(e.F[u][i]) = BlockOffset(e.ord, e.dim)
+                                                /\ AllFxSeq(e.F[u][i]) /\ ModerateSeq(e.F[u][i])
 NamedHolds(e) ==
   \A j \in 1..e.N :
      LET at == DofAttach(e, j) IN
@@ -566,11 +583,11 @@ NamedHolds(e) ==
               V  == EntVector("flux", vs)
               nsq == VDot(V, V)
           IN \A i \in 1..e.N :
-               LET g == FxDotInt(<<e.F[j][i][2], e.F[j][i][3]>>, V) IN
+               LET g == FxDotInt(<<e.F[e.pt[j]][i][2], e.F[e.pt[j]][i][3]>>, V) IN
                IF i = j THEN FxNearK(FxSq(g), FxInt(nsq), TolGlobBits, 4 * nsq)
                ELSE FxNearK(g, FxZero, TolGlobBits, 4 * (Abs(V[1]) + Abs(V[2]) + 1))
      ELSE \A i \in 1..e.N :
-            FxNearK(e.F[j][i][FieldPos(NameAxes(at.nm), e.dim)], FxInt(IF i = j THEN 1 ELSE 0), TolGlobBits, 1)
+            FxNearK(e.F[e.pt[j]][i][FieldPos(NameAxes(at.nm), e.dim)], FxInt(IF i = j THEN 1 ELSE 0), TolGlobBits, 1)
 GdofHolds(e) ==
   \A j \in 1..e.N : \A i \in 1..e.N : FxNearK(e.M[j][i], FxInt(IF i = j THEN 1 ELSE 0), TolGlobBits, 1)
 MatrixWF(M, nr, nc) == /\ Len(M) = nr /\ \A r \in 1..nr : Len(M[r]) = nc /\ AllFxSeq(M[r]) /\ ModerateSeq(M[r])
@@ -621,8 +638,9 @@ ResultWF(e) ==
     [] e.a = "Dual" -> DualWF(e) [] e.a = "PoU" -> PoUWF(e)
 
 C09Clauses(e) ==
-  IF ~HarnessWF(e) THEN [HarnessInputWellFormed |-> FALSE]
+  IF e.a \notin EventKinds THEN [HarnessInputWellFormed |-> FALSE]
   ELSE IF e.err # "" THEN [HarnessInputWellFormed |-> TRUE, NoUnexpectedError |-> FALSE]
+  ELSE IF ~HarnessWF(e) THEN [HarnessInputWellFormed |-> FALSE]
   ELSE IF ~ResultWF(e) THEN [HarnessInputWellFormed |-> TRUE, NoUnexpectedError |-> TRUE, WellFormed |-> FALSE]
   ELSE [HarnessInputWellFormed |-> TRUE, NoUnexpectedError |-> TRUE, WellFormed |-> TRUE] @@
        (CASE e.a = "Deriv" -> (DerivClauseName(e) :> DerivHolds(e))
